@@ -5,13 +5,15 @@
    Route: an explicit annotation `annot p` is defined by recursion on the syntax tree (abstract
    state before each instruction of `compile p`), and `check (to_shape (compile p)) (annot p)` is
    proved by induction on the tree, for code segments placed anywhere inside a larger program.
-   The inference (`infer` / `verify`) is not reasoned about.
+   The inference (`infer` / `verify`) is not reasoned about here; Proofs/CompileInfer.v proves
+   that it accepts the same programs.
 
    The annotation is deliberately WEAK: statements are annotated as if they left nothing on the
    stack (a statement leaks the values it computes: one slot per expression statement, per `if`
    and per `while`; lower bounds absorb that, which is also what makes the loop head invariant),
-   and the flags "a detail span exists" / "lastPop is set" are claimed only where the very next
-   instruction needs them (ld.d, dice, push.last). *)
+   and the flags "a detail span exists" / "lastPop is set" are claimed only as far as they are known
+   on entry (parameters dt / ls, both false for the program) or where the very next instruction needs
+   them (ld.d, dice, push.last). *)
 From Coq Require Import NArith ZArith List Bool String Lia.
 From DS Require Import Model.Str Model.Value Model.VM Model.Ast Model.Compile.
 From DS Require Import Model.Bytecode Model.Verify Proofs.VerifyProofs.
@@ -88,80 +90,10 @@ Qed.
 Lemma to_shape_no_bodies c : count_bodies (to_shape c) = 0.
 Proof. induction c as [|i c IH]; [reflexivity|]. unfold count_bodies in *. cbn. exact IH. Qed.
 
-(* ================================================================ the annotation *)
+(* ================================================================ the order on abstract states *)
 Definition st (lo : nat) (B : list nat) (d : nat) (dt ls : bool) : astate :=
   {| a_lo := lo; a_blocks := B; a_fb := []; a_fd := None; a_dice := d; a_det := dt; a_last := ls |}.
-Notation S0 lo B d := (st lo B d false false).
 
-(* abstract state before each instruction of compile_expr e, entered with at least lo values, open
-   blocks B, dice depth at least d; left with one value more *)
-Fixpoint ann_expr (e : expr) (lo : nat) (B : list nat) (d : nat) : annotation :=
-  match e with
-  | EInt _ | EStr _ | ENull | ETrue | EFalse => [Some (S0 lo B d)]
-  | EVar _ => [Some (S0 lo B d); Some (st lo B d true false)]
-  | EAssign _ e1 => ann_expr e1 lo B d ++ [Some (S0 (S lo) B d)]
-  | EUn _ e1 => ann_expr e1 lo B d ++ [Some (S0 (S lo) B d)]
-  | EBin _ l r => ann_expr l lo B d ++ ann_expr r (S lo) B d ++ [Some (S0 (S (S lo)) B d)]
-  | EOr l r =>
-    ann_expr l lo B d ++ [Some (S0 (S lo) B d)] ++ ann_expr r lo B d
-    ++ [Some (S0 (S lo) B d); Some (st lo B d false true)]
-  | ETern c a b =>
-    ann_expr c lo B d ++ [Some (S0 (S lo) B d)] ++ ann_expr a lo B d ++ [Some (S0 (S lo) B d)] ++ ann_expr b lo B d
-  | EArr l =>
-    (fix items (l : list expr) (lo' : nat) : annotation :=
-       match l with [] => [] | x :: r => ann_expr x lo' B d ++ items r (S lo') end) l lo
-    ++ [Some (S0 (length l + lo) B d)]
-  | EIdx b i => ann_expr b lo B d ++ ann_expr i (S lo) B d ++ [Some (S0 (S (S lo)) B d)]
-  | ERoll x y =>
-    ann_expr x lo B d ++ [Some (S0 (S lo) B d); Some (S0 (S lo) B (S d))]
-    ++ ann_expr y lo B (S d) ++ [Some (S0 (S lo) B (S d)); Some (st (S lo) B (S d) true false)]
-  end.
-
-Fixpoint citems (l : list expr) : VM.code :=
-  match l with [] => [] | x :: r => compile_expr x ++ citems r end.
-Fixpoint aitems (l : list expr) (lo : nat) (B : list nat) (d : nat) : annotation :=
-  match l with [] => [] | x :: r => ann_expr x lo B d ++ aitems r (S lo) B d end.
-Lemma compile_arr l : compile_expr (EArr l) = citems l ++ [I OpPushArr (OInt (zlen l))].
-Proof. reflexivity. Qed.
-Lemma ann_arr l lo B d : ann_expr (EArr l) lo B d = aitems l lo B d ++ [Some (S0 (length l + lo) B d)].
-Proof.
-  cbn [ann_expr]. f_equal. revert lo. induction l as [|x r IH]; intro lo; cbn [aitems]; [reflexivity|].
-  rewrite IH. reflexivity.
-Qed.
-
-(* break / continue: one block.pop per open `if`; block.pop leaves (saved height + 1) values *)
-Fixpoint ann_pops (lo : nat) (ifs LB : list nat) (d : nat) : annotation :=
-  match ifs with
-  | [] => []
-  | b :: r => Some (S0 lo (ifs ++ LB) d) :: ann_pops (S b) r LB d
-  end.
-Fixpoint lo_after (lo : nat) (ifs : list nat) : nat :=
-  match ifs with [] => lo | b :: r => lo_after (S b) r end.
-
-(* ifs = saved heights of the `if` blocks open since the enclosing loop (innermost first),
-   LB = the blocks open at the head L and at the exit X of the enclosing loop (the loop's own block
-   and everything outside; [] at top level, where L = the first instruction and X = halt).
-   Every statement is annotated as entered AND left with at least lo values. *)
-Fixpoint ann_stmt (s : stmt) (lo : nat) (ifs LB : list nat) (d : nat) : annotation :=
-  let B := ifs ++ LB in
-  match s with
-  | SNop => []
-  | SExpr e => ann_expr e lo B d
-  | SSeq a b => ann_stmt a lo ifs LB d ++ ann_stmt b lo ifs LB d
-  | SIf c t e =>
-    ann_expr c lo B d ++ [Some (S0 (S lo) B d); Some (S0 (S lo) (S lo :: B) d)]
-    ++ ann_stmt t lo (S lo :: ifs) LB d ++ [Some (S0 lo (S lo :: B) d)]
-    ++ ann_stmt e lo (S lo :: ifs) LB d ++ [Some (S0 lo (S lo :: B) d)]
-  | SWhile c b =>
-    [Some (S0 lo B d)] ++ ann_expr c lo (lo :: B) d ++ [Some (S0 (S lo) (lo :: B) d)]
-    ++ ann_stmt b lo [] (lo :: B) d ++ [Some (S0 lo (lo :: B) d)] ++ [Some (S0 lo (lo :: B) d)]
-  | SBreak | SContinue => ann_pops lo ifs LB d ++ [Some (S0 (lo_after lo ifs) LB d)]
-  end.
-
-(* the whole program: statements, then halt *)
-Definition annot (p : stmt) : annotation := ann_stmt p 0 [] [] 0 ++ [Some (S0 0 [] 0)].
-
-(* ================================================================ the order on abstract states *)
 Lemma list_le_refl l : list_le l l = true.
 Proof. induction l as [|x r IH]; [reflexivity|]. cbn [list_le]. rewrite Nat.leb_refl. exact IH. Qed.
 
@@ -263,76 +195,81 @@ Proof.
   erewrite aleb_weak; [reflexivity|exact HXle|..]; cbn [a_lo a_blocks a_fb a_dice a_det a_last]; auto.
 Qed.
 
-Lemma ck_peek C A q i a X lo B d :
+Lemma ck_peek C A q i a X lo B d dt ls :
   nth_error C q = Some i -> nth_error A q = Some (Some a) ->
-  nth_error A (S q) = Some (Some X) -> aleb (S0 lo B d) X = true ->
+  nth_error A (S q) = Some (Some X) -> aleb (st lo B d dt ls) X = true ->
   ishape i = SPeek ->
   a_fb a = [] -> a_blocks a = B -> 1 <= a_lo a -> lo <= a_lo a -> d <= a_dice a ->
+  (dt = true -> a_det a = true) -> (ls = true -> a_last a = true) ->
   check_pc C A q = true.
 Proof.
-  intros HC HA HX HXle Hsh Hfb HB H1 Hlo Hd.
+  intros HC HA HX HXle Hsh Hfb HB H1 Hlo Hd Hdt Hls.
   unfold check_pc. rewrite HA, HC, Hsh. cbn [atransfer].
   replace (a_lo a =? 0) with false by (symmetry; apply Nat.eqb_neq; lia).
   cbn [all_ok]. unfold succ_ok. cbn [fst snd]. rewrite HX.
-  erewrite aleb_weak; [reflexivity|exact HXle|..]; auto; discriminate.
+  erewrite aleb_weak; [reflexivity|exact HXle|..]; auto.
 Qed.
 
-Lemma ck_jmp C A q i a off t X lo B d :
+Lemma ck_jmp C A q i a off t X lo B d dt ls :
   nth_error C q = Some i -> nth_error A q = Some (Some a) ->
   ishape i = SJmp off -> (Z.of_nat q + off + 1 = Z.of_nat t)%Z -> t <= length C ->
-  nth_error A t = Some (Some X) -> aleb (S0 lo B d) X = true ->
+  nth_error A t = Some (Some X) -> aleb (st lo B d dt ls) X = true ->
   a_fb a = [] -> a_blocks a = B -> lo <= a_lo a -> d <= a_dice a ->
+  (dt = true -> a_det a = true) -> (ls = true -> a_last a = true) ->
   check_pc C A q = true.
 Proof.
-  intros HC HA Hsh Ht Hle HX HXle Hfb HB Hlo Hd.
+  intros HC HA Hsh Ht Hle HX HXle Hfb HB Hlo Hd Hdt Hls.
   unfold check_pc. rewrite HA, HC, Hsh. cbn [atransfer]. rewrite (jump_target_some _ _ _ _ Ht Hle).
   cbn [all_ok]. unfold succ_ok. cbn [fst snd]. rewrite HX.
-  erewrite aleb_weak; [reflexivity|exact HXle|..]; auto; discriminate.
+  erewrite aleb_weak; [reflexivity|exact HXle|..]; auto.
 Qed.
 
-Lemma ck_jcond C A q i a off dup t X1 X2 lo1 lo2 B d ls1 :
+(* both successors of a conditional jump have lastPop set *)
+Lemma ck_jcond C A q i a off dup t X1 X2 lo1 lo2 B d dt ls1 ls2 :
   nth_error C q = Some i -> nth_error A q = Some (Some a) ->
   ishape i = SJcond off dup -> (Z.of_nat q + off + 1 = Z.of_nat t)%Z -> t <= length C ->
-  nth_error A (S q) = Some (Some X1) -> aleb (st lo1 B d false ls1) X1 = true ->
-  nth_error A t = Some (Some X2) -> aleb (S0 lo2 B d) X2 = true ->
+  nth_error A (S q) = Some (Some X1) -> aleb (st lo1 B d dt ls1) X1 = true ->
+  nth_error A t = Some (Some X2) -> aleb (st lo2 B d dt ls2) X2 = true ->
   a_fb a = [] -> a_blocks a = B -> 1 <= a_lo a ->
   lo1 <= a_lo a - 1 -> lo2 <= (if dup then a_lo a else a_lo a - 1) -> d <= a_dice a ->
+  (dt = true -> a_det a = true) ->
   check_pc C A q = true.
 Proof.
-  intros HC HA Hsh Ht Hle HX1 HX1le HX2 HX2le Hfb HB H1 Hlo1 Hlo2 Hd.
+  intros HC HA Hsh Ht Hle HX1 HX1le HX2 HX2le Hfb HB H1 Hlo1 Hlo2 Hd Hdt.
   unfold check_pc. rewrite HA, HC, Hsh. cbn [atransfer].
   replace (a_lo a =? 0) with false by (symmetry; apply Nat.eqb_neq; lia).
   rewrite (jump_target_some _ _ _ _ Ht Hle).
   cbn [all_ok]. unfold succ_ok. cbn [fst snd]. rewrite HX1, HX2.
-  erewrite aleb_weak; [|exact HX1le|..]; cbn [a_lo a_blocks a_fb a_dice a_det a_last]; auto; try discriminate.
-  erewrite aleb_weak; [reflexivity|exact HX2le|..]; destruct dup; cbn [a_lo a_blocks a_fb a_dice a_det a_last]; auto;
-    discriminate.
+  erewrite aleb_weak; [|exact HX1le|..]; cbn [a_lo a_blocks a_fb a_dice a_det a_last]; auto.
+  erewrite aleb_weak; [reflexivity|exact HX2le|..]; destruct dup; cbn [a_lo a_blocks a_fb a_dice a_det a_last]; auto.
 Qed.
 
-Lemma ck_bpush C A q i a X lo B d :
+Lemma ck_bpush C A q i a X lo B d dt ls :
   nth_error C q = Some i -> nth_error A q = Some (Some a) ->
-  nth_error A (S q) = Some (Some X) -> aleb (S0 lo B d) X = true ->
+  nth_error A (S q) = Some (Some X) -> aleb (st lo B d dt ls) X = true ->
   ishape i = SBlockPush ->
   a_fb a = [] -> a_lo a :: a_blocks a = B -> lo <= a_lo a -> d <= a_dice a ->
+  (dt = true -> a_det a = true) -> (ls = true -> a_last a = true) ->
   check_pc C A q = true.
 Proof.
-  intros HC HA HX HXle Hsh Hfb HB Hlo Hd.
+  intros HC HA HX HXle Hsh Hfb HB Hlo Hd Hdt Hls.
   unfold check_pc. rewrite HA, HC, Hsh. cbn [atransfer].
   cbn [all_ok]. unfold succ_ok. cbn [fst snd]. rewrite HX.
-  erewrite aleb_weak; [reflexivity|exact HXle|..]; cbn [a_lo a_blocks a_fb a_dice a_det a_last]; auto; discriminate.
+  erewrite aleb_weak; [reflexivity|exact HXle|..]; cbn [a_lo a_blocks a_fb a_dice a_det a_last]; auto.
 Qed.
 
-Lemma ck_bpop C A q i a b X lo B d :
+Lemma ck_bpop C A q i a b X lo B d dt ls :
   nth_error C q = Some i -> nth_error A q = Some (Some a) ->
-  nth_error A (S q) = Some (Some X) -> aleb (S0 lo B d) X = true ->
+  nth_error A (S q) = Some (Some X) -> aleb (st lo B d dt ls) X = true ->
   ishape i = SBlockPop ->
   a_fb a = [] -> a_blocks a = b :: B -> lo <= S b -> d <= a_dice a ->
+  (dt = true -> a_det a = true) -> (ls = true -> a_last a = true) ->
   check_pc C A q = true.
 Proof.
-  intros HC HA HX HXle Hsh Hfb HB Hlo Hd.
+  intros HC HA HX HXle Hsh Hfb HB Hlo Hd Hdt Hls.
   unfold check_pc. rewrite HA, HC, Hsh. cbn [atransfer]. rewrite HB.
   cbn [all_ok]. unfold succ_ok. cbn [fst snd]. rewrite HX.
-  erewrite aleb_weak; [reflexivity|exact HXle|..]; cbn [a_lo a_blocks a_fb a_dice a_det a_last]; auto; discriminate.
+  erewrite aleb_weak; [reflexivity|exact HXle|..]; cbn [a_lo a_blocks a_fb a_dice a_det a_last]; auto.
 Qed.
 
 Lemma ck_halt C A q i a :
@@ -350,6 +287,80 @@ Proof.
   replace (Z.of_nat (length l) <? 0)%Z with false by (symmetry; apply Z.ltb_ge; lia).
   rewrite Nat2Z.id. reflexivity.
 Qed.
+
+(* ================================================================ the annotation *)
+(* dt / ls: a detail span / lastPop is known to exist when the annotated code is entered.  The
+   program itself is annotated with dt = ls = false; the other instances are the annotations of a
+   loop whose head is reached in an arbitrary abstract state (Proofs/CompileInfer.v). *)
+Section Flags.
+Variables dt ls : bool.
+Notation S0 lo B d := (st lo B d dt ls).
+
+(* abstract state before each instruction of compile_expr e, entered with at least lo values, open
+   blocks B, dice depth at least d; left with one value more *)
+Fixpoint ann_expr (e : expr) (lo : nat) (B : list nat) (d : nat) : annotation :=
+  match e with
+  | EInt _ | EStr _ | ENull | ETrue | EFalse => [Some (S0 lo B d)]
+  | EVar _ => [Some (S0 lo B d); Some (st lo B d true ls)]
+  | EAssign _ e1 => ann_expr e1 lo B d ++ [Some (S0 (S lo) B d)]
+  | EUn _ e1 => ann_expr e1 lo B d ++ [Some (S0 (S lo) B d)]
+  | EBin _ l r => ann_expr l lo B d ++ ann_expr r (S lo) B d ++ [Some (S0 (S (S lo)) B d)]
+  | EOr l r =>
+    ann_expr l lo B d ++ [Some (S0 (S lo) B d)] ++ ann_expr r lo B d
+    ++ [Some (S0 (S lo) B d); Some (st lo B d dt true)]
+  | ETern c a b =>
+    ann_expr c lo B d ++ [Some (S0 (S lo) B d)] ++ ann_expr a lo B d ++ [Some (S0 (S lo) B d)] ++ ann_expr b lo B d
+  | EArr l =>
+    (fix items (l : list expr) (lo' : nat) : annotation :=
+       match l with [] => [] | x :: r => ann_expr x lo' B d ++ items r (S lo') end) l lo
+    ++ [Some (S0 (length l + lo) B d)]
+  | EIdx b i => ann_expr b lo B d ++ ann_expr i (S lo) B d ++ [Some (S0 (S (S lo)) B d)]
+  | ERoll x y =>
+    ann_expr x lo B d ++ [Some (S0 (S lo) B d); Some (S0 (S lo) B (S d))]
+    ++ ann_expr y lo B (S d) ++ [Some (S0 (S lo) B (S d)); Some (st (S lo) B (S d) true ls)]
+  end.
+
+Fixpoint citems (l : list expr) : VM.code :=
+  match l with [] => [] | x :: r => compile_expr x ++ citems r end.
+Fixpoint aitems (l : list expr) (lo : nat) (B : list nat) (d : nat) : annotation :=
+  match l with [] => [] | x :: r => ann_expr x lo B d ++ aitems r (S lo) B d end.
+Lemma compile_arr l : compile_expr (EArr l) = citems l ++ [I OpPushArr (OInt (zlen l))].
+Proof. reflexivity. Qed.
+Lemma ann_arr l lo B d : ann_expr (EArr l) lo B d = aitems l lo B d ++ [Some (S0 (length l + lo) B d)].
+Proof.
+  cbn [ann_expr]. f_equal. revert lo. induction l as [|x r IH]; intro lo; cbn [aitems]; [reflexivity|].
+  rewrite IH. reflexivity.
+Qed.
+
+(* break / continue: one block.pop per open `if`; block.pop leaves (saved height + 1) values *)
+Fixpoint ann_pops (lo : nat) (ifs LB : list nat) (d : nat) : annotation :=
+  match ifs with
+  | [] => []
+  | b :: r => Some (S0 lo (ifs ++ LB) d) :: ann_pops (S b) r LB d
+  end.
+Fixpoint lo_after (lo : nat) (ifs : list nat) : nat :=
+  match ifs with [] => lo | b :: r => lo_after (S b) r end.
+
+(* ifs = saved heights of the `if` blocks open since the enclosing loop (innermost first),
+   LB = the blocks open at the head L and at the exit X of the enclosing loop (the loop's own block
+   and everything outside; [] at top level, where L = the first instruction and X = halt).
+   Every statement is annotated as entered AND left with at least lo values. *)
+Fixpoint ann_stmt (s : stmt) (lo : nat) (ifs LB : list nat) (d : nat) : annotation :=
+  let B := ifs ++ LB in
+  match s with
+  | SNop => []
+  | SExpr e => ann_expr e lo B d
+  | SSeq a b => ann_stmt a lo ifs LB d ++ ann_stmt b lo ifs LB d
+  | SIf c t e =>
+    ann_expr c lo B d ++ [Some (S0 (S lo) B d); Some (S0 (S lo) (S lo :: B) d)]
+    ++ ann_stmt t lo (S lo :: ifs) LB d ++ [Some (S0 lo (S lo :: B) d)]
+    ++ ann_stmt e lo (S lo :: ifs) LB d ++ [Some (S0 lo (S lo :: B) d)]
+  | SWhile c b =>
+    [Some (S0 lo B d)] ++ ann_expr c lo (lo :: B) d ++ [Some (S0 (S lo) (lo :: B) d)]
+    ++ ann_stmt b lo [] (lo :: B) d ++ [Some (S0 lo (lo :: B) d)] ++ [Some (S0 lo (lo :: B) d)]
+  | SBreak | SContinue => ann_pops lo ifs LB d ++ [Some (S0 (lo_after lo ifs) LB d)]
+  end.
+
 
 (* ================================================================ lengths *)
 Lemma ann_expr_len_and_hd : forall e,
@@ -433,7 +444,10 @@ Ltac pos :=
   | H : at_seg ?L ?q' _ |- at_seg ?L ?q _ => first [exact H | replace q with q' by lia; exact H]
   end.
 
-Ltac side := cbn; try reflexivity; try lia; try (intros; discriminate); try (intros; reflexivity); auto.
+Ltac flag :=
+  intros; repeat match goal with H : _ = true |- _ => rewrite H end; cbn; try reflexivity; try apply orb_true_r.
+Ltac side :=
+  cbn; try reflexivity; try lia; try (intros; discriminate); try (intros; reflexivity); auto; try solve [flag].
 
 Ltac wk := first [eassumption | apply aleb_st_refl].
 Ltac shp := first [reflexivity | apply shape_bin | apply shape_un | apply shape_arr].
@@ -792,12 +806,17 @@ Proof.
     + step_jmp PL. apply lo_after_ge; [lia|exact HF].
 Qed.
 
+End Flags.
+
 (* ================================================================ whole programs *)
 Lemma all_ok_intro {X} (f : X -> bool) l : (forall x, In x l -> f x = true) -> all_ok f l = true.
 Proof.
   induction l as [|y r IH]; intro H; cbn [all_ok]; [reflexivity|].
   rewrite (H y (or_introl eq_refl)). apply IH. intros x Hx. apply H. right. exact Hx.
 Qed.
+
+(* the whole program: statements, then halt; nothing is known on entry *)
+Definition annot (p : stmt) : annotation := ann_stmt false false p 0 [] [] 0 ++ [Some (st 0 [] 0 false false)].
 
 (* MAIN THEOREM: the explicit annotation of every program of the fragment is accepted by the
    checker.  No side condition: every `stmt` of Model/Ast.v, of any size and nesting depth, including
@@ -806,22 +825,22 @@ Theorem compile_check : forall p : stmt, check (to_shape (compile p)) (annot p) 
 Proof.
   intro p. unfold check, compile, annot.
   set (C := to_shape (compile_stmt 0 0 0 p ++ [I OpHalt ONil])).
-  set (A := ann_stmt p 0 [] [] 0 ++ [Some (S0 0 [] 0)]).
+  set (A := ann_stmt false false p 0 [] [] 0 ++ [Some (st 0 [] 0 false false)]).
   assert (HC : at_seg C 0 (to_shape (compile_stmt 0 0 0 p))).
   { subst C. rewrite to_shape_app. apply (at_seg_mid [] _ _). }
-  assert (HA : at_seg A 0 (ann_stmt p 0 [] [] 0)) by apply (at_seg_mid [] _ _).
-  assert (HH : nth_error A (sl 0 p) = Some (Some (S0 0 [] 0))).
+  assert (HA : at_seg A 0 (ann_stmt false false p 0 [] [] 0)) by apply (at_seg_mid [] _ _).
+  assert (HH : nth_error A (sl 0 p) = Some (Some (st 0 [] 0 false false))).
   { subst A. rewrite nth_error_app2; rewrite ann_stmt_len; cbn [length]; [|lia]. rewrite Nat.sub_diag. reflexivity. }
   assert (HCh : nth_error C (sl 0 p) = Some (shp_instr (I OpHalt ONil))).
   { subst C. rewrite to_shape_app. rewrite nth_error_app2; rewrite to_shape_len, compile_stmt_len; [|lia].
     rewrite Nat.sub_diag. reflexivity. }
   assert (LC : length C = sl 0 p + 1).
   { subst C. rewrite to_shape_len, app_length, compile_stmt_len. reflexivity. }
-  destruct (stmt_entry p A 0 0 [] [] 0 (S0 0 [] 0) HA HH (aleb_st_refl _ _ _ _ _)) as [X0 [HX0 HX0le]].
-  rewrite HX0. change a_init with (S0 0 [] 0). cbn [app] in HX0le. rewrite HX0le.
+  destruct (stmt_entry false false p A 0 0 [] [] 0 (st 0 [] 0 false false) HA HH (aleb_st_refl _ _ _ _ _)) as [X0 [HX0 HX0le]].
+  rewrite HX0. change a_init with (st 0 [] 0 false false). cbn [app] in HX0le. rewrite HX0le.
   apply all_ok_intro. intros q Hq. apply in_seq in Hq. rewrite LC in Hq.
   destruct (Nat.lt_ge_cases q (sl 0 p)) as [Hlt|Hge].
-  - pose proof (stmt_ok p C A 0 0 [] [] 0 0%Z 0%Z 0 (sl 0 p) (S0 0 [] 0) X0 (S0 0 [] 0)) as Hs.
+  - pose proof (stmt_ok false false p C A 0 0 [] [] 0 0%Z 0%Z 0 (sl 0 p) (st 0 [] 0 false false) X0 (st 0 [] 0 false false)) as Hs.
     cbn [length app Nat.add] in Hs.
     apply Hs; try assumption; try apply aleb_st_refl; try lia. constructor.
   - replace q with (sl 0 p) by lia. eapply ck_halt; [exact HCh|exact HH|reflexivity].
